@@ -726,10 +726,10 @@ def _parse_inline_fragment(
         rule="fragments-on-composite-types", fragment=inline_frag, path=path
     )
 
-    validators.ctx.setdefault("inlined_in", {}).setdefault(
-        validators.ctx["parent_type_name"], []
-    ).append(inline_frag)
     validators.ctx["parent_type_name"] = parent_type_name
+    validators.ctx.setdefault("inlined_in", {}).setdefault(
+        parent_type_name, []
+    ).append(inline_frag)
 
     return inline_frag
 
